@@ -16,6 +16,12 @@ from harness.fw import REPO, Check, Driver, quiet_androguard
 
 LOOP_LIMIT = 400000
 
+# hand-modelled functions (normalised-AST hashes recorded in gen/pins.json by tools/mkpins.py)
+PINS = [("androguard/decompiler/dataflow.py", "BasicReachDef.run"),
+        ("androguard/decompiler/dataflow.py", "BasicReachDef.__init__"),
+        ("androguard/decompiler/dataflow.py", "build_def_use"),
+        ("androguard/decompiler/dataflow.py", "reach_def_analysis")]
+
 
 class LoopLimit(Exception):
     pass
@@ -168,6 +174,34 @@ def oracle_ud(view):
             if l is not None:
                 d[l] = i
         last_def.append(d)
+    memo = {}
+
+    def reach_in(v, x):
+        """definitions of x that reach the start of node v (memoised per (node, register))"""
+        key = (v, x)
+        if key in memo:
+            return memo[key]
+        found = set()
+        seen = set()
+        stack = list(preds[v]) + (["dummy"] if v == view.entry else [])
+        while stack:
+            p = stack.pop()
+            if p in seen:
+                continue
+            seen.add(p)
+            if p == "dummy":
+                for kk, prm in enumerate(view.params, 1):
+                    if prm == x:
+                        found.add(-kk)
+            elif x in last_def[p]:
+                found.add(last_def[p][x])
+            else:
+                stack.extend(preds[p])
+                if p == view.entry:
+                    stack.append("dummy")
+        memo[key] = found
+        return found
+
     exp = {}
     for v, li in enumerate(view.loc_ins):
         for k, (u, _, uses) in enumerate(li):
@@ -178,26 +212,9 @@ def oracle_ud(view):
                         found = {li[j][0]}
                         break
                 if found is None:
-                    found = set()
-                    seen = set()
-                    stack = list(preds[v]) + (["dummy"] if v == view.entry else [])
-                    while stack:
-                        p = stack.pop()
-                        if p in seen:
-                            continue
-                        seen.add(p)
-                        if p == "dummy":
-                            for kk, prm in enumerate(view.params, 1):
-                                if prm == x:
-                                    found.add(-kk)
-                        elif x in last_def[p]:
-                            found.add(last_def[p][x])
-                        else:
-                            stack.extend(preds[p])
-                            if p == view.entry:
-                                stack.append("dummy")
+                    found = reach_in(v, x)
                 if found:
-                    exp[(x, u)] = found
+                    exp[(x, u)] = set(found)
     return exp
 
 
@@ -286,6 +303,57 @@ def small_scope(rng, quick):
                        "exit": rng.choice([None] + list(range(n))), "params": rng.choice(([], [0], [1], [0, 1], [1, 0], [2]))}
 
 
+# ---- deterministic adversarial families: many work-list iterations per node -------------------------------
+# The work list needs one pass per block for information that travels against the rpo order, and one more
+# round per definition that arrives later: ladders b0<->b1<->...<->bN with one register per block maximise
+# the real iteration count (about N*N/2, i.e. 50..100 steps per node; random graphs and DEX methods stay
+# below 12). Sizes 130..200 blocks, 70..150 registers, one definition per block, uses far from definitions.
+def _adv_nodes(N, R, param):
+    return [[[i % R, [(i * 7) % R]], [None, sorted({0, R - 1, (i * 7) % R, (i + R // 2) % R, param})]] for i in range(N)]
+
+
+def adv_ladder(N, R, catch=False, rungs=0):
+    fwd = [[i, i + 1] for i in range(N - 1)]
+    back = [[i + 1, i] for i in range(N - 1)]
+    edges = [e for pr in zip(fwd, back) for e in pr] if not catch else fwd
+    edges += [[N - 1 - i, i] for i in range(rungs)]
+    return {"nodes": _adv_nodes(N, R, R), "edges": edges, "cedges": back if catch else [], "entry": 0, "exit": N - 1, "params": [R]}
+
+
+def adv_nested(N, R):
+    """loops nested N/2 deep: chain plus back edges b[N-1-i] -> b[i]"""
+    return {"nodes": _adv_nodes(N, R, R), "edges": [[i, i + 1] for i in range(N - 1)] + [[N - 1 - i, i] for i in range(N // 2)],
+            "cedges": [], "entry": 0, "exit": N - 1, "params": [R]}
+
+
+def adv_chain(N, R):
+    """long chain with one big loop and a back edge to the entry from every tenth block, many registers"""
+    return {"nodes": _adv_nodes(N, R, R), "edges": [[i, i + 1] for i in range(N - 1)] + [[N - 1, 0]] + [[i, 0] for i in range(10, N, 10)],
+            "cedges": [], "entry": 0, "exit": None, "params": [R, R + 1]}
+
+
+def adversarial(rng, big):
+    j = lambda: rng.randrange(0, 6)
+    fams = [("adv-ladder", adv_ladder(130 + j(), 70 + j())),
+            ("adv-ladder", adv_ladder(158 + j(), 100 + j())),
+            ("adv-ladder", adv_ladder(195 + j(), 145 + j())),
+            ("adv-catch-ladder", adv_ladder(140 + j(), 90 + j(), catch=True)),
+            ("adv-ladder-rungs", adv_ladder(150 + j(), 120 + j(), rungs=12)),
+            ("adv-nested", adv_nested(170 + j(), 110 + j())),
+            ("adv-chain", adv_chain(195 + j(), 150))]
+    if big:
+        fams += [("adv-ladder", adv_ladder(n, r)) for n, r in ((128, 65), (136, 136), (180, 180), (200, 100))]
+        fams += [("adv-nested", adv_nested(200, 150)), ("adv-catch-ladder", adv_ladder(200, 150, catch=True))]
+    return fams
+
+
+def ask_parallel(drv, reqs, workers=8):
+    """one driver process per request (the large instances take seconds each in the model)"""
+    from concurrent.futures import ThreadPoolExecutor
+    with ThreadPoolExecutor(max_workers=workers) as ex:
+        return [r[0] for r in ex.map(lambda q: drv.ask([q]), reqs)]
+
+
 def corpus_cases():
     import json
     d = os.path.join(os.path.dirname(os.path.dirname(os.path.dirname(os.path.abspath(__file__)))), "corpus", "C20")
@@ -354,20 +422,37 @@ def find_method(ident):
 # ----------------------------------------------------------------------------- run
 def run(ck: Check):
     quiet_androguard()
+    ck.pins_changed(PINS)
+    big = (not ck.quick) or getattr(ck, "escalated", False)
     ck.prove(exes=["drv_C20"])
     drv = Driver("drv_C20")
     rng = ck.rng
     ck.rule = ("random graphs: 1..40 nodes (85% <= 12), 1..6 defined registers + up to 2 never-defined ones, 0..8 define/use "
                "statements per node, spanning edges + extra forward/back/self edges, catch edges, random entry (15%), unreachable "
                "nodes, parameters (also unused / never otherwise defined), exit set or None; small scope: every normal-edge set on "
-               "1..3 nodes with statement lists from a 9-entry menu; DEX: graphs construct() builds for methods of tests/data/APK/*.dex. "
+               "1..3 nodes with statement lists from a 9-entry menu; adversarial (always): ladders b0<->b1<->..<->bN (also with catch back edges / "
+               "extra rungs), loops nested N/2 deep, long chains, 130..200 blocks, 70..150 registers, one definition per block, uses far "
+               "from definitions (50..100 work-list steps per node); DEX: graphs construct() builds for methods of tests/data/APK/*.dex. "
                "distinct = distinct (graph, statements, entry, exit, params) description or distinct DEX method; "
                "non-trivial = at least one use whose reaching set was computed (UD non-empty)")
     cases = [("corpus", c) for c in corpus_cases()]
-    cases += [("small", c) for c in small_scope(rng, ck.quick)]
-    nrand = 2500 if ck.quick else 60000
+    cases += [("small", c) for c in small_scope(rng, not big)]
+    nrand = 60000 if not ck.quick else (20000 if big else 2500)     # escalated quick run: in between
     cases += [("random", rand_case(rng)) for _ in range(nrand)]
-    cases += [("random-large", rand_case(rng, rng.randrange(25, 41))) for _ in range(150 if ck.quick else 3000)]
+    cases += [("random-large", rand_case(rng, rng.randrange(25, 41))) for _ in range(3000 if not ck.quick else (1000 if big else 150))]
+    adv = adversarial(rng, big)
+    stats = {"max_steps_per_node": 0.0, "max_steps_per_node_family": "", "max_iterations": 0, "max_iterations_over_bound": 0.0,
+             "note": "max_iterations_over_bound is taken over graphs of >= 100 nodes"}
+
+    def note_steps(fam, it, nnodes, bound):
+        if it is None:
+            return
+        spn = it / max(1, nnodes)
+        if spn > stats["max_steps_per_node"]:
+            stats["max_steps_per_node"], stats["max_steps_per_node_family"] = round(spn, 2), fam
+        stats["max_iterations"] = max(stats["max_iterations"], it)
+        if bound and nnodes >= 100:      # (tiny graphs without definitions meet the bound exactly: 1 iteration, bound 1)
+            stats["max_iterations_over_bound"] = max(stats["max_iterations_over_bound"], round(it / bound, 5))
 
     reqs, reals, metas = [], [], []
     dist = {"graphs_with_catch_edges": 0, "graphs_with_unreachable_nodes": 0, "graphs_with_self_loop": 0,
@@ -379,7 +464,7 @@ def run(ck: Check):
         view = View(g, case["params"])
         line, it, ud, du = real_run(g, case["params"], view)
         judge(ck, {"family": fam, "case": case}, view, line, ud, du)
-        reqs.append(view.request()); reals.append(line); metas.append((fam, it))
+        reqs.append(view.request()); reals.append(line); metas.append((fam, it, len(view.rpo)))
         dist["graphs_with_catch_edges"] += bool(case["cedges"])
         dist["graphs_with_unreachable_nodes"] += any(nd.num == 0 for nd in view.rpo) and len(view.rpo) > 0 and view.rpo[0].num == 0
         dist["graphs_with_self_loop"] += any(a == b for a, b in case["edges"] + case["cedges"])
@@ -394,8 +479,9 @@ def run(ck: Check):
                 distinct.append(shape_of(case, view))
     model = drv.ask(reqs)
     mlines, within = [], []
-    for (fam, it), r in zip(metas, model):
+    for (fam, it, nn), r in zip(metas, model):
         ml, mit, b = split_model(r)
+        note_steps(fam, it, nn, b)
         mlines.append(ml)
         within.append("within-bound" if (b is None or it is None or it <= b) else f"exceeds-bound {it}>{b}")
     ck.compare("defuse-stub-graphs", reqs, reals, mlines)
@@ -404,12 +490,38 @@ def run(ck: Check):
              samples=[{"request": reqs[i], "real": reals[i][:300]} for i in (len(cases) // 3, len(cases) - 200, len(cases) - 1)],
              dist=dict(dist, **{"family_" + f: sum(1 for x, _ in cases if x == f) for f in ("corpus", "small", "random", "random-large")}))
 
+    # ---- adversarial families (always run): many iterations per node, close(r) to the proven bound
+    reqs, reals, metas, adistinct = [], [], [], []
+    for fam, case in adv:
+        g = build_graph(case)
+        view = View(g, case["params"])
+        line, it, ud, du = real_run(g, case["params"], view)
+        judge(ck, {"family": fam, "case": case}, view, line, ud, du)
+        reqs.append(view.request()); reals.append(line); metas.append((fam, it, len(view.rpo)))
+        if ud is not None and any(ud.values()):
+            adistinct.append(shape_of(case, view))
+    model = ask_parallel(drv, reqs)
+    mlines, within, asamples = [], [], []
+    for (fam, it, nn), r, rq in zip(metas, model, reqs):
+        ml, mit, b = split_model(r)
+        note_steps(fam, it, nn, b)
+        mlines.append(ml)
+        within.append("within-bound" if (b is None or it is None or it <= b) else f"exceeds-bound {it}>{b}")
+        asamples.append({"family": fam, "nodes": nn, "real_iterations": it, "model_iterations": mit, "bound": b,
+                         "steps_per_node": None if it is None else round(it / nn, 1)})
+    short = [f"{m[0]} nodes={m[2]} :: {r[:400]}..." for m, r in zip(metas, reqs)]
+    ck.compare("defuse-adversarial", short, reals, mlines)
+    ck.compare("defuse-adversarial-loop-bound", short, within, ["within-bound"] * len(within))
+    ck.cover(evaluations=len(adv), distinct=adistinct, samples=asamples[:3],
+             dist={"family_adversarial": len(adv)})
+    ck.dist["adversarial_instances"] = asamples
+
     # ---- methods of the shipped DEX files
     reqs, reals, its, idents = [], [], [], []
     ddist = {"dex_methods": 0, "dex_construct_errors": 0, "dex_nodes_total": 0, "dex_max_nodes": 0, "dex_methods_with_catch": 0,
              "dex_uses_total": 0}
     ddistinct = []
-    for ident, g, params, err in dex_methods(ck, ck.quick):
+    for ident, g, params, err in dex_methods(ck, not big):
         if g is None:
             ddist["dex_construct_errors"] += 1
             continue
@@ -430,8 +542,9 @@ def run(ck: Check):
                 ddistinct.append(("dex", ident))
     model = drv.ask(reqs)
     mlines, within = [], []
-    for it, r in zip(its, model):
+    for it, r, rq0 in zip(its, model, reqs):
         ml, mit, b = split_model(r)
+        note_steps("dex", it, len(rq0.split(" ")) - 4, b)
         mlines.append(ml)
         within.append("within-bound" if (b is None or it is None or it <= b) else f"exceeds-bound {it}>{b}")
     rq = [f"{i} :: {r}" for i, r in zip(idents, reqs)]
@@ -442,6 +555,9 @@ def run(ck: Check):
              samples=[{"method": idents[i], "real": reals[i][:300]} for i in (0, len(reqs) // 2)] if reqs else [],
              dist=ddist)
     ck.dist["dex_max_nodes"] = mx
+    ck.dist["worklist"] = stats
+    ck.notes.append(f"work-list iterations: max {stats['max_iterations']}, max steps per node {stats['max_steps_per_node']} "
+                    f"({stats['max_steps_per_node_family']}), max iterations/proven bound on graphs of >= 100 nodes {stats['max_iterations_over_bound']}")
     ck.notes.append("full proof: run_fixpoint, run_least, mfp_eq_mop, ud_exact, du_inverse, du_exact hold for every well-formed graph; "
                     "the real while loop's iteration count equals the model's on every case and stays within the proven bound")
     ck.assumptions.append("Python sets are modelled as lists compared as sets; dict insertion order and set iteration order are not "
